@@ -63,6 +63,8 @@ func c15Gen(tier string, emit func(c15Case)) {
 			emit(c15Case{Kind: "build", Template: t, Style: st, Reg: "named-later"})
 			// a POST route with the same literal skeleton and variable names but other variable regexes is registered first
 			emit(c15Case{Kind: "build", Template: t, Style: st, Reg: "twin-before"})
+			// a caching router that has already answered "no route" for every URL it will build, before the route exists
+			emit(c15Case{Kind: "build", Template: t, Style: st, Reg: "late-after-miss"})
 		}
 	}
 	// naming: all sequences of <= 3 operations over 2 names x 3 APIs
@@ -189,6 +191,9 @@ func c15Run(c c15Case, st *fw.Stats) []fw.Viol {
 	var seenIdx int = -1
 	var seenParams map[string]string
 	r := rux.New()
+	if c.Reg == "late-after-miss" {
+		r = rux.New(rux.CachingWithNum(64))
+	}
 	th := func(ctx *rux.Context) {
 		seenIdx = 0
 		seenParams = map[string]string{}
@@ -217,6 +222,8 @@ func c15Run(c c15Case, st *fw.Stats) []fw.Viol {
 			r.POST(twin, func(ctx *rux.Context) { seenIdx = 4 })
 		}
 		r.AddNamed("target", c.Template, th, "GET")
+	case "late-after-miss":
+		// registered below, after the misses
 	default:
 		r.AddNamed("target", c.Template, th, "GET")
 	}
@@ -228,6 +235,30 @@ func c15Run(c c15Case, st *fw.Stats) []fw.Viol {
 	// ... whose first segment is one of the values, but which matches no built URL
 	r.GET(`/ab/{x:\d+}/edit`, func(ctx *rux.Context) { seenIdx = 3 })
 	r.GET(`/7/{x:\d+}/edit`, func(ctx *rux.Context) { seenIdx = 3 })
+	if c.Reg == "late-after-miss" {
+		// every path the values can spell is requested first (no route yet), then the named route is registered
+		cur := make([]string, len(defs))
+		var pre func(i int)
+		pre = func(i int) {
+			if i < len(defs) {
+				for _, v := range c15Values {
+					if defs[i].re.MatchString(v) {
+						cur[i] = v
+						pre(i + 1)
+					}
+				}
+				return
+			}
+			spelled := c.Template
+			for k, m := range vars {
+				spelled = strings.Replace(spelled, m[0], cur[k], 1)
+			}
+			_ = try(func() { r.Match("GET", spelled) })
+			_ = try(func() { r.ServeHTTP(httptest.NewRecorder(), &http.Request{Method: "GET", URL: &url.URL{Path: spelled}, Header: http.Header{}, Host: "h"}) })
+		}
+		pre(0)
+		r.AddNamed("target", c.Template, th, "GET")
+	}
 	target := r.GetRoute("target")
 	vals := make([]string, len(defs))
 	var rec func(i int)
@@ -309,7 +340,8 @@ func c15Run(c c15Case, st *fw.Stats) []fw.Viol {
 			}
 			// 1. the path is dispatched to that same route with exactly the values
 			rt, ps, _ := r.Match("GET", u.Path)
-			if rt != target {
+			// (a caching router hands out its cached copy of the route: identity is judged by name and path)
+			if rt == nil || rt.Name() != target.Name() || rt.Path() != target.Path() {
 				gp := "<none>"
 				if rt != nil {
 					gp = rt.Path()
@@ -359,7 +391,7 @@ func c15Run(c c15Case, st *fw.Stats) []fw.Viol {
 var c15Spec = fw.Spec[c15Case]{
 	ID:    "C15",
 	Level: "model_checking",
-	Rule: "complete product: 17 named templates (static, leading variable next to dynamic decoys whose literal first segment is one of the values, default / custom / global variable regexes, 1-3 variables, literal prefix and suffix around a variable, '.' in the literal text) x ALL value tuples over 19 values (spaces, non-ASCII, %, ?, #, ;, encoded slash, dots, slash where the regex admits it) that satisfy the variables' regexes x 4 argument styles (M map, key/value pairs, BuildRequestURL builder, one builder object reused across routes) x 4 registrations (top-level AddNamed; NewNamedRoute + ToURL() + AddRoute inside a group; named after registration with NamedTo; after a POST route with the same skeleton and variable names but other variable regexes) x 4 sets of extra query arguments; " +
+	Rule: "complete product: 17 named templates (static, leading variable next to dynamic decoys whose literal first segment is one of the values, default / custom / global variable regexes, 1-3 variables, literal prefix and suffix around a variable, '.' in the literal text) x ALL value tuples over 19 values (spaces, non-ASCII, %, ?, #, ;, encoded slash, dots, slash where the regex admits it) that satisfy the variables' regexes x 4 argument styles (M map, key/value pairs, BuildRequestURL builder, one builder object reused across routes) x 5 registrations (on a caching router that answered 'no route' for every URL before the route existed; top-level AddNamed; NewNamedRoute + ToURL() + AddRoute inside a group; named after registration with NamedTo; after a POST route with the same skeleton and variable names but other variable regexes) x 4 sets of extra query arguments; " +
 		"each built URL is matched (Match on u.Path) and requested (ServeHTTP on a request parsed from u.String()); naming: all sequences of <=3 (thorough 4) naming operations over 2 names x {AddNamed, NewNamedRoute+AddRoute, route.NamedTo on a new route, NamedTo renaming the first / the previous route}; non-trivial = a template with variables / a sequence of >=2 naming operations",
 	Assume: []string{"values containing '{' or '}' are excluded: Build substitutes in Go map order, which the harness cannot own", "routes without optional parts, as the statement says", "value tuples that spell a path which is not in normal form (white space or '/' at the very end) are skipped: path normalisation (C11) ignores those characters by design"},
 	Bounds: func(tier string) map[string]any {
